@@ -149,7 +149,7 @@ func Calls(f *ssa.Function) []ssa.CallInstruction {
 	if f == nil {
 		return nil
 	}
-	for _, b := range f.Blocks {
+	for _, b := range Blocks(f) {
 		for _, in := range b.Instrs {
 			if c, ok := in.(ssa.CallInstruction); ok {
 				out = append(out, c)
@@ -191,4 +191,32 @@ func CalleeKey2(v ssa.Value) string {
 		return CalleeKey(c)
 	}
 	return ""
+}
+
+// OwnCalls lists the call instructions of f itself (nothing that is inlined into it): for rules that visit every
+// function of a scope on its own.
+func OwnCalls(f *ssa.Function) []ssa.CallInstruction {
+	var out []ssa.CallInstruction
+	if f == nil {
+		return nil
+	}
+	for _, b := range f.Blocks {
+		for _, in := range b.Instrs {
+			if c, ok := in.(ssa.CallInstruction); ok {
+				out = append(out, c)
+			}
+		}
+	}
+	return out
+}
+
+// OwnCallsTo lists the calls of f itself whose callee key is one of keys.
+func OwnCallsTo(f *ssa.Function, keys ...string) []ssa.CallInstruction {
+	var out []ssa.CallInstruction
+	for _, c := range OwnCalls(f) {
+		if CalleeIs(c, keys...) {
+			out = append(out, c)
+		}
+	}
+	return out
 }
